@@ -306,6 +306,8 @@ pub struct Report {
     pub real: Vec<String>,
     pub stubs: Vec<String>,
     pub extra: BTreeMap<String, Value>,
+    /// counters this engine expects to be non-zero in every run (fault kinds fired, rare-branch probes)
+    pub expected_probes: Vec<&'static str>,
 }
 
 impl Report {
@@ -324,6 +326,7 @@ impl Report {
             ],
             stubs: Vec::new(),
             extra: BTreeMap::new(),
+            expected_probes: Vec::new(),
         }
     }
 
@@ -354,6 +357,9 @@ impl Report {
         for (k, v) in &self.extra {
             coverage[k] = v.clone();
         }
+        let never: Vec<&str> = self.expected_probes.iter().copied().filter(|p| st.get(p) == 0).collect();
+        coverage["probes_expected"] = json!(self.expected_probes);
+        coverage["probes_never_hit"] = json!(never);
         let ev = json!({
             "property_id": self.property,
             "tier": self.env.tier(),
